@@ -26,6 +26,9 @@ CFG_THOROUGH = CFG_QUICK + [
 CFG_OPTION_QUICK = [
     dict(comp="gzip", bs=4096, defaults=dict(uid=11, gid=12, mode=0o711, mtime=12345)),
     dict(comp="gzip", bs=4096, set_uid=77, set_gid=88),
+    dict(comp="gzip", bs=4096, set_uid=77),          # each forcing option on its own: the other id must come from the input
+    dict(comp="gzip", bs=4096, set_gid=88),
+    dict(comp="gzip", bs=4096, set_uid=77, defaults=dict(gid=12, mode=0o700)),
     dict(comp="gzip", bs=4096, all_root=1),
 ]
 
@@ -156,12 +159,16 @@ def sweep_cases(tier):
         spec = [E(b"x%05d" % i, "fifo", 0o600, xattrs={b"user.n": b"%d" % i, b"user.shared": b"S" * 40}) for i in range(n)]
         yield dict(kind="sweep-xattrsets", names=("sets=%d" % n,), spec=spec, cfg=gz, mode="packfile")
     # (e) hard-link groups of size 2..3 to files, devices, fifos; link before/after its target in name order
-    for tgt_type in ("file", "chr", "fifo", "slink"):
+    for tgt_type in ("file", "file-sparse", "file-blocks", "file-xattr", "chr", "fifo", "slink"):
         for gsize in (2, 3):
             for before in (True, False):
                 tname = b"m"
-                base = dict(file=E(tname, "file", content=b"target"), chr=E(tname, "chr", 0o600, dev=(1, 3)),
-                            fifo=E(tname, "fifo", 0o600), slink=E(tname, "slink", 0o777, target=b"zz"))[tgt_type]
+                # targets whose inode is already in its extended form before the link count is stored: a sparse block, an xattr
+                base = {"file": E(tname, "file", content=b"target"), "chr": E(tname, "chr", 0o600, dev=(1, 3)),
+                        "file-sparse": E(tname, "file", content=bytes(2 * B) + content_pattern("sp", B + 10)),
+                        "file-blocks": E(tname, "file", content=content_pattern("fb", 2 * B + 10)),
+                        "file-xattr": E(tname, "file", content=b"xa", xattrs={b"user.k": b"v"}),
+                        "fifo": E(tname, "fifo", 0o600), "slink": E(tname, "slink", 0o777, target=b"zz")}[tgt_type]
                 spec = [base]
                 for i in range(gsize - 1):
                     nm = (b"a%d" % i) if before else (b"z%d" % i)
